@@ -147,7 +147,7 @@ def finish(pid, tier, seed, mod, plan, results, problems, t0, replay, quiet):
         for v in real:
             groups.setdefault((v["monitor"], v["feature"]), []).append(v)
         for n, ((mon, feat), vs) in enumerate(sorted(groups.items(), key=lambda kv: kv[0])):
-            if n >= 15:
+            if n >= int(os.environ.get("VERIF_MAXGROUPS", "15")):
                 out_lines.append("  ... %d further kinds of violation not listed" % (len(groups) - n))
                 break
             v = min(vs, key=lambda x: len(json.dumps(x["case"])))
